@@ -5,7 +5,7 @@ import build
 GOTREE = os.path.join(build.BUILD, "gotree")
 
 def build_gotree():
-    rc, out = build.sh(["go", "build", "-o", GOTREE + ".tmp", "."], cwd=build.REPO, env=build.GOENV, timeout=900)
+    rc, out = build.sh(["go", "build"] + build.COVER_FLAGS + ["-o", GOTREE + ".tmp", "."], cwd=build.REPO, env=build.GOENV, timeout=900)
     if rc != 0:
         return False, out[-3000:]
     os.replace(GOTREE + ".tmp", GOTREE)
